@@ -173,3 +173,56 @@ Example C01_svd_post_instance :
   (forall i j, (i < 2)%nat -> (j < 2)%nat -> sU st' i j = identity ROps i (1 - j)%nat) /\
   (forall i j, (i < 2)%nat -> (j < 2)%nat -> sV st' i j = identity ROps i (1 - j)%nat).
 Proof. exact svd_post_example. Qed.
+
+(* ========================================= QR ========================================= *)
+From SC Require Import C01.Proofs_qr.
+
+(* QR::R() is upper triangular. *)
+Theorem C01_qr_R_upper : forall (QR : @Mx R) tau i j, (j < i)%nat -> qr_R ROps QR tau i j = 0.
+Proof. exact qr_R_upper. Qed.
+
+(* qr_mut on EVERY m x n real matrix with n <= m (no rank hypothesis): Q() * R() = A entrywise ... *)
+Theorem C01_qr_reconstruct : forall m n (A : @Mx R), (n <= m)%nat ->
+  let '(QR, tau) := qr_mut ROps m n A in
+  forall i j, (i < m)%nat -> (j < n)%nat -> mmul n (qr_Q ROps m n QR) (qr_R ROps QR tau) i j = A i j.
+Proof. exact qr_QR_product. Qed.
+
+(* ... the columns of Q() are orthonormal ... *)
+Theorem C01_qr_Q_orthonormal : forall m n (A : @Mx R), (n <= m)%nat ->
+  let '(QR, tau) := qr_mut ROps m n A in
+  forall a b, (a < n)%nat -> (b < n)%nat ->
+    rsum m (fun i => qr_Q ROps m n QR i a * qr_Q ROps m n QR i b) = (if Nat.eqb a b then 1 else 0).
+Proof. exact qr_Q_orthonormal. Qed.
+
+(* ... each stored reflection is either skipped (zero column, tau = 0) or satisfies v.v = 2 v_k with
+   v_k >= 1 (the sign choice), which makes H_k an orthogonal involution; applying the reflections to
+   the input triangularises it: H_{n-1} ... H_0 A = [R; 0]. *)
+Theorem C01_qr_householder : forall m n (A : @Mx R), (n <= m)%nat ->
+  let '(QR, tau) := qr_mut ROps m n A in
+  (forall k, (k < n)%nat ->
+     ((forall i, (k <= i < m)%nat -> QR i k = 0) /\ tau k = 0) \/
+     (1 <= QR k k /\ rsum (m - k) (fun t => QR (k + t)%nat k ^ 2) = 2 * QR k k /\ tau k <> 0)) /\
+  (forall i j, (i < m)%nat -> (j < n)%nat ->
+     Qtapp m QR n (fun r => A r j) i = (if (i <=? j)%nat then qr_R ROps QR tau i j else 0)).
+Proof.
+  intros m n A Hnm. pose proof (qr_reflector_norm m n A Hnm) as H1.
+  pose proof (qr_triangularize m n A Hnm) as H2.
+  destruct (qr_mut ROps m n A) as [QR tau]. split; assumption.
+Qed.
+Theorem C01_householder_orthogonal : forall m k (V : @Mx R), refl_ok m k V ->
+  (forall x i, Hk m k V (Hk m k V x) i = x i) /\
+  (forall x y, dot m (Hk m k V x) (Hk m k V y) = dot m x y).
+Proof. intros m k V H. split; [exact (Hk_involutive m k V H)|exact (Hk_dot m k V H)]. Qed.
+
+(* qr_solve_mut: whenever it returns (no exactly zero diagonal entry of R, i.e. full column rank in
+   exact arithmetic) the top n rows X of the result satisfy the normal equations A^T (A X - b) = 0:
+   the solution for square A, the least-squares solution for tall A. *)
+Theorem C01_qr_solve_lsq : forall m n bn (A b X : @Mx R), (n <= m)%nat ->
+  qr_solve_mut ROps m n bn A b = Some X ->
+  forall k j, (k < n)%nat -> (j < bn)%nat ->
+    rsum m (fun i => A i k * (rsum n (fun t => A i t * X t j) - b i j)) = 0.
+Proof. exact (qr_solve_lsq_from_back_subst back_subst_spec). Qed.
+
+(* a step that is not skipped: the column (3,4)^T has norm 5 and R(0,0) = tau 0 = -5 *)
+Example C01_qr_instance : snd (qr_mut ROps 2 1 ex_A) 0%nat = -5.
+Proof. exact qr_example. Qed.
